@@ -79,8 +79,12 @@ fn write_fastq(recs: &[Rec]) -> Result<Vec<u8>, String> {
     let mut out = vec![];
     {
         let mut w = fastq::Writer::new(&mut out);
-        for r in recs {
-            w.write(&r.id, r.desc.as_deref(), &r.seq, &r.qual).map_err(|e| e.to_string())?;
+        for (i, r) in recs.iter().enumerate() {
+            if i % 2 == 0 {
+                w.write(&r.id, r.desc.as_deref(), &r.seq, &r.qual).map_err(|e| e.to_string())?;
+            } else {
+                w.write_record(&fastq::Record::with_attrs(&r.id, r.desc.as_deref(), &r.seq, &r.qual)).map_err(|e| e.to_string())?;
+            }
         }
         w.flush().map_err(|e| e.to_string())?;
     }
@@ -92,8 +96,12 @@ fn write_fasta(recs: &[Rec], wrap: Option<usize>) -> Result<Vec<u8>, String> {
     {
         let mut w = fasta::Writer::new(&mut out);
         w.set_linewrap(wrap);
-        for r in recs {
-            w.write(&r.id, r.desc.as_deref(), &r.seq).map_err(|e| e.to_string())?;
+        for (i, r) in recs.iter().enumerate() {
+            if i % 2 == 0 {
+                w.write(&r.id, r.desc.as_deref(), &r.seq).map_err(|e| e.to_string())?;
+            } else {
+                w.write_record(&fasta::Record::with_attrs(&r.id, r.desc.as_deref(), &r.seq)).map_err(|e| e.to_string())?;
+            }
         }
         w.flush().map_err(|e| e.to_string())?;
     }
@@ -186,6 +194,45 @@ impl C11 {
         })
     }
 
+    /// the other reading API: `read(&mut record)` with ONE record object reused for the whole file
+    fn read_reuse(&self, fastq_fmt: bool, data: &[u8], cap: usize, chunk: usize, seed: u64, limit: usize) -> Result<Result<Vec<Rec>, String>, String> {
+        use bio::io::fasta::FastaRead;
+        use bio::io::fastq::FastqRead;
+        let data = data.to_vec();
+        guard(move || {
+            let rd = Chunky::new(data, seed, chunk);
+            let mut v = vec![];
+            if fastq_fmt {
+                let mut reader = fastq::Reader::from_bufread(BufReader::with_capacity(cap, rd));
+                let mut rec = fastq::Record::new();
+                loop {
+                    reader.read(&mut rec).map_err(|e| format!("record {}: {}", v.len(), e))?;
+                    if rec.is_empty() {
+                        break;
+                    }
+                    v.push(Rec { id: rec.id().to_string(), desc: rec.desc().map(|s| s.to_string()), seq: rec.seq().to_vec(), qual: rec.qual().to_vec() });
+                    if v.len() > limit {
+                        return Err(format!("REUSE-NO-END read() with a reused record yielded more than {} records", limit));
+                    }
+                }
+            } else {
+                let mut reader = fasta::Reader::from_bufread(BufReader::with_capacity(cap, rd));
+                let mut rec = fasta::Record::new();
+                loop {
+                    reader.read(&mut rec).map_err(|e| format!("record {}: {}", v.len(), e))?;
+                    if rec.is_empty() {
+                        break;
+                    }
+                    v.push(Rec { id: rec.id().to_string(), desc: rec.desc().map(|s| s.to_string()), seq: rec.seq().to_vec(), qual: vec![] });
+                    if v.len() > limit {
+                        return Err(format!("REUSE-NO-END read() with a reused record yielded more than {} records", limit));
+                    }
+                }
+            }
+            Ok(v)
+        })
+    }
+
     fn compare(&self, ctx: &mut Ctx, what: &str, fmt: &str, exp: &[Rec], got: Result<Result<Vec<Rec>, String>, String>, file: &[u8], params: &str) -> bool {
         let desc = |w: String| Obj::new().s("format", fmt).s("path", what).s("reader_parameters", params).b("file", &file[..file.len().min(700)]).d("records", &&exp[..exp.len().min(4)]).s("what", &w).done();
         match got {
@@ -236,6 +283,11 @@ impl C11 {
             }
         }
         if all_ok {
+            let got = self.read_reuse(true, &fq, *rng.pick(&caps), *rng.pick(&chunks), rng.next(), recs.len() + 2);
+            ctx.eval(recs.len() as u64 + 1);
+            all_ok &= self.compare(ctx, "read-into-reused-record", "fastq", &recs, got, &fq, "FastqRead::read with one reused Record");
+        }
+        if all_ok {
             let got = self.read_fastq(&to_crlf(&fq), *rng.pick(&caps), *rng.pick(&chunks), rng.next());
             ctx.eval(recs.len() as u64);
             self.compare(ctx, "crlf", "fastq", &recs, got, &fq, "CRLF line ends");
@@ -259,6 +311,11 @@ impl C11 {
             if !fa_ok {
                 break;
             }
+        }
+        if fa_ok {
+            let got = self.read_reuse(false, &fa, *rng.pick(&caps), *rng.pick(&chunks), rng.next(), recs.len() + 2);
+            ctx.eval(recs.len() as u64 + 1);
+            fa_ok &= self.compare(ctx, "read-into-reused-record", "fasta", &frecs, got, &fa, "FastaRead::read with one reused Record");
         }
         if fa_ok {
             // layout independence: the same records in other layouts written by the harness
@@ -476,8 +533,8 @@ impl Monitor for C11 {
     fn rule(&self) -> &'static str {
         "round-trip case = 1-6 records (id: graphic ASCII/UTF-8 without whitespace, sometimes starting with > @ +; description: none / word / inner blanks and tabs / leading blank / \
          containing > @ + (and, in directed cases, trailing blank or empty: known finding); sequence over ACGTNacgtnRYKM*-. of length 1-400 (quick) / up to 40000 (thorough); qualities \
-         '!'..'~' with '@' and '+' forced as first quality) written by the FASTQ writer and the FASTA writer (linewrap none/1/2/3/7/60), read back through BufReader capacities \
-         {1,2,3,5,16,8192} x read() fragment sizes {1,2,3,7,64,unbounded}, after CRLF conversion, after re-wrapping by the harness's own layout code (widths none/1/2/5/60/61, with or \
+         '!'..'~' with '@' and '+' forced as first quality) written by the FASTQ writer (write and write_record) and the FASTA writer (linewrap none/1/2/3/7/60), read back through BufReader capacities \
+         {1,2,3,5,16,8192} x read() fragment sizes {1,2,3,7,64,unbounded} (records() iterator and read() into one reused Record), after CRLF conversion, after re-wrapping by the harness's own layout code (widths none/1/2/5/60/61, with or \
          without final newline), and through EitherRecords/get_kind/get_kind_seek; records must be identical. truncation case = every cut offset of files <= 400 bytes (200 random \
          offsets otherwise): no panic, at most len+2 items, every FASTQ item that is Ok and passes check() is an original record in original order. junk case = random bytes over a \
          hostile alphabet or byte-mutated valid files: no panic, bounded item count. shape = (kind, #records, wrap, description classes, length class) / (format, cut position class) / (junk class)"
